@@ -152,6 +152,24 @@ def run(tier, seed):
             for hdr in (rng.randbytes(32) + b"\x81\x00\x00\x00\x01", rng.randbytes(32) + b"\xc1\x00\x00\x00\x01" + bytes(16) + b"\x00\x02id" + cbor2.dumps({1: 2, 3: -7, -1: 1, -2: bytes(32), -3: bytes(32)})):
                 run_one(hdr + item, "deep-extension")
                 run_one(hdr + b"\xa1\x61\x64" + item, "deep-extension")
+    # a raw U2F point (0x04 || X || Y) where the COSE key belongs is no COSE key: 0x04 is the complete CBOR integer 4 and the 64 bytes behind it are left over
+    for tail in (64, 65, 70, 100, 130):
+        for fl in (0x41, 0xC1):
+            b = rng.randbytes(32) + bytes([fl]) + b"\x00\x00\x00\x01" + bytes(16) + b"\x00\x02id" + b"\x04" + rng.randbytes(tail) + (b"\xa0" if fl & 0x80 else b"")
+            run_one(b, "raw-point-at-key-position", "reject")
+    # the byte pattern of the known-malformed EdDSA key header means something at ONE place (where the credential public key starts): written over any other 17 bytes of a
+    # layout - the header, the counter, the AAGUID, the credential id, the extensions - it is data like any other (model and reference reading decide)
+    for kind_ in range(3 if quick else 12):
+        b, exp = cborgen.layout(rng)
+        while not (b[32] & 0x40) or len(b) > 400:
+            b, exp = cborgen.layout(rng)
+        for off in range(0, len(b) - 17):
+            b2 = b[:off] + BAD_EDDSA + b[off + 17:]
+            run_one(b2, "marker-at-offset")
+        # ... in particular across the counter and the AAGUID of an assertion that carries attested data
+        key = cbor2.dumps({1: 2, 3: -7, -1: 1, -2: bytes(32), -3: bytes(32)})
+        b3 = rng.randbytes(32) + b"\x41" + BAD_EDDSA[:4] + BAD_EDDSA[4:] + bytes(3) + b"\x00\x02id" + key
+        run_one(b3, "marker-across-counter-and-aaguid", {"rp": b3[:32], "flags": 0x41, "count": int.from_bytes(BAD_EDDSA[:4], "big"), "att": (BAD_EDDSA[4:] + bytes(3), b"id", key), "ext": None})
     # bad-EdDSA quirk layouts
     bad = bytes.fromhex("a301634f4b500327206745643235353139") + bytes.fromhex("215820") + rng.randbytes(32)
     for cid_len in (0, 16, 70):
